@@ -116,7 +116,8 @@ class BigQuery(Dialect):
 
     # https://cloud.google.com/bigquery/docs/reference/standard-sql/navigation_functions#percentile_cont
     COERCES_TO = {
-        **TypeAnnotator.COERCES_TO,
+        # Copy the sets too: they are updated in place below and must not change the shared table
+        **{type_: set(types) for type_, types in TypeAnnotator.COERCES_TO.items()},
         exp.DType.BIGDECIMAL: {exp.DType.DOUBLE},
     }
     COERCES_TO[exp.DType.DECIMAL] |= {exp.DType.BIGDECIMAL}
